@@ -152,36 +152,37 @@ def digit_int(ctx, name, kind, negative, ndigits):
     return z
 
 
-def ob_ints(kind, negative, ndigits):
+def ob_ints(kind, negative, ndigits, arrlen=2):
     def fn(ctx):
         import pydl.pydlutils.yanny as ymod
         ctx.ints_as_Z = True
         fs = FS()
         saved = install(ymod, fs)
         try:
-            d = {'fn': 'ints', 'kind': kind, 'negative': negative, 'ndigits': ndigits}
+            d = {'fn': 'ints', 'kind': kind, 'negative': negative, 'ndigits': ndigits, 'arrlen': arrlen}
             ctx.detail = d
-            rec = _rec(1, [('v', kind), ('arr', kind, (2,)), ('s', 'S2')])
+            rec = _rec(1, [('v', kind), ('arr', kind, (arrlen,)), ('s', 'S2')])
             v = digit_int(ctx, 'v', kind, negative, ndigits)
             a0 = digit_int(ctx, 'a', kind, not negative, max(1, ndigits - 1))
             _set(rec, 'v', 0, v)
             rec._fields['arr'][0, 0] = a0
-            rec._fields['arr'][0, 1] = Z(-1)
+            if arrlen > 1:
+                rec._fields['arr'][0, 1] = Z(-1)
             _set(rec, 's', 0, b'ab')
             ymod.write_ndarray_to_yanny('/data/ints.par', rec, structnames='ints')
             back = ymod.yanny('/data/ints.par')
             T = 'INTS'
             ctx.require(back.size(T) == 1, 'row count', d)
             rdt = back[T].dtype
-            ctx.require(rdt.fields['v'][0] == np.dtype(kind) and rdt.fields['arr'][0].base == np.dtype(kind) and rdt.fields['arr'][0].shape == (2,),
+            ctx.require(rdt.fields['v'][0] == np.dtype(kind) and rdt.fields['arr'][0].base == np.dtype(kind) and rdt.fields['arr'][0].shape == (arrlen,),
                         'integer column types', dict(d, got=str(rdt)))
             gv = column_values(back, T, 'v')
             ga = column_values(back, T, 'arr')
             ctx.require(cell_eq(gv[0], v), 'every integer equal', dict(d, col='v'))
-            ctx.require(cell_eq(ga[0], [a0, Z(-1)]), 'every integer array element equal', dict(d, col='arr'))
+            ctx.require(cell_eq(ga[0], [a0, Z(-1)][:arrlen]), 'every integer array element equal', dict(d, col='arr'))
         finally:
             uninstall(ymod, saved)
-    return Obligation('ints %s negative=%d digits=%d' % (kind, negative, ndigits), fn, bounds='every %s value with %d digits' % (kind, ndigits),
+    return Obligation('ints %s negative=%d digits=%d arrlen=%d' % (kind, negative, ndigits, arrlen), fn, bounds='every %s value with %d digits' % (kind, ndigits),
                       max_paths=200000, max_seconds=1700, solver_timeout_ms=120000)
 
 
@@ -271,6 +272,8 @@ def obligations(tier, seed):
     obs.append(ob_strings((0, 2), 'scalar-last'))
     obs.append(ob_strings((2,), 'scalar-mid'))
     obs.append(ob_strings((1, 1), 'array'))
+    obs.append(ob_strings((2,), 'array'))          # a 1-D array column of length exactly 1
+    obs.append(ob_ints('i4', False, 3, arrlen=1))
     obs.append(ob_strings((1,), 'two-tables'))
     if not q:
         obs.append(ob_strings((3,), 'scalar-last'))
@@ -359,9 +362,10 @@ def replay(rec):
             def val(name, neg, nd):
                 t = ''.join(chr(int(inp.get('%s_d%d' % (name, k), 48))) for k in range(nd))
                 return -int(t) if neg else int(t)
-            a = np.zeros(1, dtype=[('v', kind), ('arr', kind, (2,)), ('s', 'S2')])
+            al = d.get('arrlen', 2)
+            a = np.zeros(1, dtype=[('v', kind), ('arr', kind, (al,)), ('s', 'S2')])
             a['v'][0] = val('v', d['negative'], d['ndigits'])
-            a['arr'][0] = [val('a', not d['negative'], max(1, d['ndigits'] - 1)), -1]
+            a['arr'][0] = [val('a', not d['negative'], max(1, d['ndigits'] - 1)), -1][:al]
             a['s'][0] = b'ab'
             write_ndarray_to_yanny(fn, a, structnames='ints')
             back = yanny(fn)['INTS']
